@@ -12,6 +12,8 @@ if len(sys.argv) > 1:
 by_prop = defaultdict(list)
 for d in dirs:
     by_prop[json.load(open(d + "/meta.json"))["property"]].append(d)
+if os.environ.get("PROPS"):
+    by_prop = {k: v for k, v in by_prop.items() if k in os.environ["PROPS"].split(",")}
 
 def run_prop(item):
     pid, ds = item
